@@ -17,7 +17,7 @@ import (
 // The finite representative domain of C15, enumerated exhaustively.
 var (
 	c15Nums []any
-	c15Strs = []any{"", "0", "1", "1.5", "10", "9", "-1", "-0.5", "a", "A", "ab", "b", "é", " 1", "1 ", "2", "127", "255", "256", "-128"}
+	c15Strs = []any{"", "0", "1", "1.1", "0.1", "-2.7", "3.3", "1.10", "1.5", "10", "9", "-1", "-0.5", "a", "A", "ab", "b", "é", " 1", "1 ", "2", "127", "255", "256", "-128"}
 )
 
 func c15Add(v any) { c15Nums = append(c15Nums, v) }
@@ -69,6 +69,12 @@ func init() {
 	c15Add(uint64(math.MaxUint64 - 1))
 	c15Add(int64(1<<53 + 1))
 	c15Add(uint64(1<<53 + 1))
+	// fractions that are short in decimal but not dyadic: their float32 and
+	// float64 images differ, and the float32 one prints short only at 32 bits
+	for _, f := range []float64{1.1, 0.1, -2.7, 3.3, 16777217} {
+		c15Add(f)
+		c15Add(float32(f))
+	}
 
 	nPairs := func() int { n := len(c15Nums) + len(c15Strs); return n * n }
 	fw.Register(&fw.Prop{
@@ -114,6 +120,11 @@ func exactDecimal(v any) string {
 	if r == nil {
 		return ""
 	}
+	// numbers whose conventional text carries an exponent (1e+06, 2.5e-07) are
+	// outside the asserted number-vs-string domain
+	if strings.ContainsAny(fmt.Sprintf("%v", v), "eE") {
+		return ""
+	}
 	if r.IsInt() {
 		return r.Num().String()
 	}
@@ -121,7 +132,11 @@ func exactDecimal(v any) string {
 	if !exact {
 		return ""
 	}
-	s := strconv.FormatFloat(f, 'f', -1, 64)
+	bits := 64
+	if _, is32 := v.(float32); is32 {
+		bits = 32 // the decimal text of a float32 is its shortest 32-bit representation
+	}
+	s := strconv.FormatFloat(f, 'f', -1, bits)
 	if strings.ContainsAny(s, "eE") {
 		return ""
 	}
